@@ -89,6 +89,7 @@ type run struct {
 	failNext    bool
 	abandoned   bool
 	lastSnapIx  int
+	snapDoneIx  int // block of the last COMPLETED snapshot
 	mutOps      int // commits + prune calls, to tell whether something ran concurrently with a snapshot
 	nAcc        int
 
@@ -326,8 +327,11 @@ func (r *run) step(st *simkit.Step) {
 		if !r.bubble || len(r.pendings) > 0 || int(adb.GetNumCheckpoints()) < r.snapStarted {
 			return
 		}
+		// Only roots older than the last completed snapshot: TakeSnapshot starts with checkpointHashesHolder.RemoveCommitted(root),
+		// which for a root committed AFTER the last snapshot drops the holder's entries up to that root although the snapshot is then
+		// refused; on the unchanged tree the next checkpoint is incomplete after that (DESIGN.md 11.6; not how the node requests snapshots).
 		var cand []int
-		for i := 1; i < len(r.blocks)-1; i++ {
+		for i := 1; i < len(r.blocks)-1 && i < r.snapDoneIx; i++ {
 			if _, onDisk := r.disk.RawGet(r.blocks[i].root); r.blocks[i].dead && !onDisk && len(r.blocks[i].root) > 0 && r.allRoots[string(r.blocks[i].root)] == 1 {
 				cand = append(cand, i)
 			}
@@ -750,6 +754,15 @@ func (r *run) verifyPendings() {
 			r.c.Probe("stale_snapshot_request_ended")
 			continue
 		}
+		if r.c.Failed("C09") {
+			// C10 speaks about a state root that exists: when a C09 defect (known finding rollback-while-pruning-blocked:
+			// snapshots block pruning) has already deleted nodes of this very root from the main storage, no snapshot of it
+			// can be complete. Narrow: a C09 violation was recorded in this run AND the root is unreadable on the main disk.
+			if _, err := r.walkState(r.disk, p.root, p.m); err != nil {
+				r.c.Probe("not_judged_source_root_destroyed_by_C09_defect")
+				continue
+			}
+		}
 		db := r.se.TSM.GetSnapshotThatContainsHash(p.root)
 		if db == nil {
 			r.c.Violate("C10", p.kind+"-missing", "GetSnapshotThatContainsHash", "%s of root %x (block #%d) finished but no snapshot DB contains the root", p.kind, p.root, p.blocks)
@@ -764,6 +777,7 @@ func (r *run) verifyPendings() {
 		r.c.Probe(p.kind + "_verified")
 		if p.kind == "snapshot" {
 			r.snapDone++
+			r.snapDoneIx = p.blocks
 		}
 		if r.mutOps > p.opsAt {
 			r.verifiedConcurrent++
